@@ -74,6 +74,9 @@ let dispatch (fn : string) : jv -> jv = match fn with
   | "spnego_serve" -> serve_j
   | "http_do" -> http_do_j
   | "asrep_verify" -> asrep_verify_j
+  | "client_run" -> client_run_j
+  | "new_as_req" -> new_as_req_j
+  | "referrals" -> referrals_j
   | "cc_unmarshal" -> cc_unmarshal_j
   | "cc_getentry" -> cc_getentry_j
   | "cc_contains" -> cc_contains_j
